@@ -15,6 +15,7 @@ pub fn instr_size(fmt: Fmt, game: truth::Game, timeline: bool, i: &RawInstr) -> 
         Fmt::Anm => if game < truth::Game::Th07 { 4 } else { 8 },
         Fmt::Msg | Fmt::End => 4,
         Fmt::Std => 8,
+        Fmt::Ecl if game >= truth::Game::Th10 => 16,
         Fmt::Ecl => if timeline { 8 } else { 12 },
         Fmt::Mission => 0,
     };
@@ -35,6 +36,7 @@ fn scripts_by_export(f: &FileStruct, exported_as: &Value) -> Option<(Vec<RawInst
         }
         (FileStruct::Ecl(truth::EclFile::Olde(e)), "olde-ecl-sub") => e.subs.values().nth(index?).map(|s| (s.instrs.clone(), false)),
         (FileStruct::Ecl(truth::EclFile::Olde(e)), "scl-script") => e.timelines.get(index?).map(|s| (s.instrs.clone(), true)),
+        (FileStruct::Ecl(truth::EclFile::Stack(e)), "named-ecl-sub") => { let name = exported_as["name"].as_str()?; e.subs.iter().find(|(k, _)| k.value == name).map(|(_, s)| (s.instrs.clone(), false)) }
         _ => None,
     }
 }
@@ -48,13 +50,13 @@ impl Property for C18 {
     }
     fn tape_len(&self, tier: Tier) -> usize { tier.pick(350, 500) }
     fn cases(&self, tier: Tier) -> u32 { tier.pick(300_000, 4_000_000) }
-    fn required_labels(&self, _tier: Tier) -> Vec<&'static str> { vec!["fmt:anm", "fmt:std", "fmt:msg", "fmt:end", "fmt:ecl", "scripts-checked", "user-label-time", "local-checked", "const-checked", "const-use-checked", "varying-sizes", "timeline"] }
+    fn required_labels(&self, _tier: Tier) -> Vec<&'static str> { vec!["fmt:anm", "fmt:std", "fmt:msg", "fmt:end", "fmt:ecl", "scripts-checked", "user-label-time", "local-checked", "const-checked", "const-use-checked", "varying-sizes", "timeline", "modern-ecl"] }
     fn max_discard_fraction(&self) -> f64 { 0.35 }
 
     fn generate(&self, tape: &mut Tape, tier: Tier, _known: &Known) -> Value {
         let mut fmt = pick_fmt(tape);
         if fmt == Fmt::Mission { fmt = Fmt::Anm; }
-        let game = *tape.pick(games_for(fmt));
+        let game = if fmt == Fmt::Ecl && tape.chance(1, 3) { *tape.pick(MODERN_ECL_GAMES) } else { *tape.pick(games_for(fmt)) };
         let f = gen_file(tape, fmt, game, tier.pick(10, 20));
         let language = match fmt { Fmt::Anm => truth::LanguageKey::Anm, Fmt::Ecl => truth::LanguageKey::Ecl, Fmt::Std => truth::LanguageKey::Std, Fmt::Msg => truth::LanguageKey::Msg, _ => truth::LanguageKey::End };
         let lang = cached_lang(game, language);
@@ -101,6 +103,7 @@ impl Property for C18 {
         let g = files::game_from_str(game);
         let text = case["text"].as_str().unwrap();
         ctx.label(format!("fmt:{}", fmt.name()));
+        if fmt == Fmt::Ecl && g >= truth::Game::Th10 { ctx.label("modern-ecl"); }
         let compiled = tx::with_truth(|truth| files::compile_file(truth, fmt, g, text.as_bytes(), &[], vec![]).map(|c| (c.bytes, c.debug_info)).map_err(|s| (s, tx::diags(truth))));
         let (bytes, dbg) = match compiled {
             Ok(x) => x,
